@@ -161,9 +161,13 @@ def first_value_difference(a, b, path="/"):
 def to_plain(n):
     """JSON-able description of a tree (for witnesses); rebuilt by from_plain."""
     def make(x, kids):
-        return {"name": x.name, "id": x.id, "content": x.content, "tail": x.tail, "prefix": x.prefix,
-                "attributes": dict(x.attributes), "extras": dict(x.extras), "nsmap": dict(x.nsmap),
-                "children": [k if isinstance(k, dict) else {"name": "<cycle>"} for k in kids]}
+        d = {"name": x.name, "id": x.id, "content": x.content, "tail": x.tail, "prefix": x.prefix,
+             "attributes": dict(x.attributes), "extras": dict(x.extras), "nsmap": dict(x.nsmap),
+             "children": [k if isinstance(k, dict) else {"name": "<cycle>"} for k in kids]}
+        if any(not isinstance(k, str) for k in d["nsmap"]):
+            # JSON object keys are strings: the default namespace (key None) travels as a list of pairs
+            d["nsmap_pairs"] = [[k, v] for k, v in d.pop("nsmap").items()]
+        return d
     return _postorder(n, make)
 
 
@@ -180,7 +184,7 @@ def from_plain(Node, d, fresh_ids=True, parent=None):
         n.prefix = spec.get("prefix")
         n.attributes = dict(spec.get("attributes") or {})
         n.extras = dict(spec.get("extras") or {})
-        n.nsmap = dict(spec.get("nsmap") or {})
+        n.nsmap = {k: v for k, v in spec["nsmap_pairs"]} if "nsmap_pairs" in spec else dict(spec.get("nsmap") or {})
         n.parent = par
         made.append((n, par))
         if par is None and root is None:
